@@ -107,6 +107,9 @@ func genCase(r *Rng) Replay {
 		if np > 1 && r.Chance(1, 14) {
 			ps.Fail = true // the journal controller cannot open it while the statements run
 		}
+		if ps.Hold == 1 && r.Chance(1, 2) {
+			ps.QFail = true // a SELECT over the held partition fails meanwhile (its journal cannot be opened)
+		}
 		parts[i] = ps
 	}
 	return Replay{Kind: "trunc", Parts: parts, PSeed: r.U64(), Repeat: r.Chance(1, 3), TsClass: tc.name}
@@ -373,6 +376,12 @@ func corpus() []Replay {
 			{{Ts: 50, Len: 12}, {Ts: 60, Len: 12}, {Ts: 70, Len: 12}, {Ts: 80, Len: 12}, {Ts: 90, Len: 12}, {Ts: 100, Len: 12}}}}},
 			P: &Params{SrcForm: "expr", Min: -1, Max: -1, Before: b, MaxDb: -1}})
 	}
+	// a held EMPTY partition over which a SELECT fails meanwhile (GetJournals stops its do-not-release visit at it and releases what it took):
+	// the holder's hold is still there, TRUNCATE must not drop the partition; the same for a held partition with data under MAXDBSIZE 0
+	cs = append(cs, Replay{Kind: "trunc", Parts: []PartSpec{{Grp: "a", Empty: true, Hold: 1, QFail: true}, {Grp: "a", Batches: mono(1, 4, 36, 1, 0)}},
+		P: &Params{SrcForm: "expr", Min: -1, Max: -1, Before: -1, MaxDb: -1}})
+	cs = append(cs, Replay{Kind: "trunc", Parts: []PartSpec{{Grp: "a", Batches: mono(0, 4, 36, 1, 0), Hold: 1, QFail: true}, {Grp: "a", Empty: true}},
+		P: &Params{SrcForm: "expr", Min: -1, Max: -1, Before: -1, MaxDb: 0}})
 	// MAXSIZE/MINSIZE guards: 9 chunks of 100: MAXSIZE 450 MINSIZE 440 stops at 500; the second partition is locked
 	cs = append(cs, Replay{Kind: "trunc", Parts: []PartSpec{{Grp: "a", Batches: mono(0, 18, 36, 1, 0), Park: 4}, {Grp: "a", Batches: mono(1, 3, 36, 1, 0), Hold: 2}},
 		P: &Params{SrcForm: "expr", Min: 440, Max: 450, Before: -1, MaxDb: -1}})
